@@ -172,7 +172,7 @@ func runCmd(dir string, env []string, name string, args ...string) (string, erro
 
 func workerEnv() []string {
 	env := os.Environ()
-	return append(env, "GOMAXPROCS=1", "GOGC=400")
+	return append(env, "GOMAXPROCS=1", "GOGC=400", "GORACE=exitcode=0")
 }
 
 // runWorker runs one harness process and parses its report.
@@ -278,7 +278,7 @@ func check(prop, tier string) int {
 				args = append(args, job.Args...)
 				env := workerEnv()
 				if job.Race || job.Shards == 1 {
-					env = os.Environ()
+					env = append(os.Environ(), "GORACE=exitcode=0")
 				}
 				reps[sh], errs[sh] = runWorker(bin, args, env)
 			}(i)
@@ -342,6 +342,8 @@ func check(prop, tier string) int {
 	var lines []string
 	exit := 0
 	perKind := map[string]int{}
+	tried := map[string]int{}
+	var unconfirmed []string
 	knownPrinted := map[int]bool{}
 	confirmed := 0
 	for _, jv := range viols {
@@ -353,10 +355,10 @@ func check(prop, tier string) int {
 			}
 			continue
 		}
-		perKind[v.Kind]++
-		if perKind[v.Kind] > 3 {
+		if perKind[v.Kind] >= 3 || tried[v.Kind] >= 12 {
 			continue
 		}
+		tried[v.Kind]++
 		// confirm by replaying in fresh processes
 		bin := b.plain
 		if jv.job.Inst {
@@ -367,8 +369,13 @@ func check(prop, tier string) int {
 		}
 		okc, why := confirm(bin, jv.job, prop, v)
 		if !okc {
-			fatal("candidate violation did not reproduce identically on replay (machinery fault, not a verdict): %s\nwitness: %s", why, v.Witness)
+			// a candidate that does not reproduce in a fresh process is not
+			// believed (it can depend on state left by earlier executions of
+			// the same worker); other candidates are still tried
+			unconfirmed = append(unconfirmed, fmt.Sprintf("kind=%s: %s; witness: %s", v.Kind, why, trunc(v.Witness, 300)))
+			continue
 		}
+		perKind[v.Kind]++
 		confirmed++
 		path := writeReplay(prop, jv.job, v)
 		lines = append(lines, fmt.Sprintf("VIOLATION property=%s replay=%s", prop, path))
@@ -377,7 +384,16 @@ func check(prop, tier string) int {
 		exit = 1
 	}
 
+	if len(unconfirmed) > 0 {
+		merged.Notes = append(merged.Notes, fmt.Sprintf("%d candidate violations did not reproduce identically in a fresh process and were not reported", len(unconfirmed)))
+	}
 	writeEvidence(prop, tier, plan, merged, bounds, time.Since(start).Seconds(), confirmed, len(knownPrinted))
+	if confirmed == 0 && len(unconfirmed) > 0 && exit == 0 {
+		for _, u := range unconfirmed {
+			fmt.Fprintln(os.Stderr, "unconfirmed candidate:", u)
+		}
+		fatal("candidate violations were found but none reproduced on replay in a fresh process (machinery fault or history-dependent behaviour; not a verdict)")
+	}
 	fmt.Printf("check %s %s: states=%d transitions=%d traces_validated=%d exhaustive=%v violations=%d wall=%.1fs\n",
 		prop, tier, merged.States, merged.Transitions, merged.Traces, merged.Exhaustive, merged.NViol, time.Since(start).Seconds())
 	for _, l := range lines {
